@@ -3,7 +3,7 @@ C18 - temporary reconfiguration applies inside its block and is undone exactly.
 
 Explicit-state BFS over histories of
 
-    configure(k=v) | enter(k=v) | exit_ok | exit_exc | request
+    configure(k=v) | configure(credentials=c, unknown=1) | enter(k=v) | exit_ok | exit_exc | exit_cancel | request
 
 on one real Client; in every state reached a request probe is issued (settings: timeout, retries, credentials of three protocol
 families, context; plus an unknown setting).  Reference model: a stack of plain
@@ -76,6 +76,9 @@ class System:
         self.v3_agent = ragent.V3Agent(DB, list(USERS.values()), clock=lambda: CLOCK.now)
         self.client, self.sender = world.make_client(lib_creds(INITIAL["credentials"]), self.handle)
         self.stack = [dict(INITIAL)]
+        self.tokens = [0]  # model: which message-processing instance each frame uses
+        self.next_token = 1
+        self.discovered = set()  # tokens whose (v3) instance has done discovery
         self.blocks = []  # (context manager, client.config before enter)
         self.datagrams = []
         self.dead = False
@@ -103,7 +106,13 @@ class System:
         def cfg(x):
             return (repr_creds(x.credentials), x.timeout, x.retries, x.context.engine_id, x.context.name)
 
+        # tokens renamed by first occurrence: only the sharing pattern matters
+        ren = {}
+        toks = tuple(ren.setdefault(t, len(ren)) for t in self.tokens)
+        disc = tuple(sorted(ren[t] for t in self.discovered if t in ren))
         return (
+            toks,
+            disc,
             tuple(tuple(sorted(f.items())) for f in self.stack),
             cfg(c.config),
             type(c.mpm).__name__,
@@ -150,6 +159,10 @@ def events(sysm):
     if sysm.blocks:
         out.append(("exit_ok",))
         out.append(("exit_exc",))
+        out.append(("exit_cancel",))
+    if sub["bogus"] and "credentials" in sub["settings"]:
+        for v in sub["settings"]["credentials"]:
+            out.append(("configure2", "credentials", v))
     if sub["request"]:
         out.append(("request",))
     return out
@@ -184,7 +197,23 @@ def step(sysm, ev):
         except Exception as exc:  # noqa
             bad("configure-raised", exception=repr(exc)[:200])
             return out
+        if key == "credentials" and family(val) != family(sysm.stack[-1]["credentials"]):
+            sysm.tokens[-1] = sysm.next_token
+            sysm.next_token += 1
         sysm.stack[-1][key] = val
+    elif name == "configure2":
+        # credentials of (possibly) another family together with an unknown
+        # setting: must be refused as a whole
+        key, val = ev[1], ev[2]
+        before = c.config
+        try:
+            c.configure(**{key: lib_value(key, val), "bogus": 1})
+            bad("unknown-setting-accepted")
+        except Exception:  # noqa
+            if c.config != before:
+                bad("unknown-setting-changed-configuration")
+        # the refused call must not have changed what is spoken
+        out.extend(step(sysm, ("request",)))
     elif name == "enter":
         key, val = ev[1], ev[2]
         before = c.config
@@ -204,12 +233,31 @@ def step(sysm, ev):
             return out
         sysm.blocks.append((cm, before))
         frame = dict(sysm.stack[-1])
+        if key == "credentials" and family(val) != family(frame["credentials"]):
+            sysm.tokens.append(sysm.next_token)
+            sysm.next_token += 1
+        else:
+            sysm.tokens.append(sysm.tokens[-1])
         frame[key] = val
         sysm.stack.append(frame)
-    elif name in ("exit_ok", "exit_exc"):
+    elif name in ("exit_ok", "exit_exc", "exit_cancel"):
         cm, before = sysm.blocks.pop()
         sysm.stack.pop()
-        if name == "exit_ok":
+        sysm.tokens.pop()
+        if name == "exit_cancel":
+            import asyncio
+
+            boom = asyncio.CancelledError()
+            try:
+                swallowed = cm.__exit__(asyncio.CancelledError, boom, None)
+            except asyncio.CancelledError:
+                swallowed = False
+            except Exception as exc:  # noqa
+                swallowed = False
+                bad("exit-raised-other-exception", exception=repr(exc)[:200])
+            if swallowed:
+                bad("cancellation-of-the-block-swallowed")
+        elif name == "exit_ok":
             try:
                 cm.__exit__(None, None, None)
             except Exception as exc:  # noqa
@@ -251,7 +299,22 @@ def step(sysm, ev):
                 bad("transport-arguments-not-from-active-configuration", got=kw)
                 break
         judge_datagram(sysm.datagrams[-1], top, bad, sysm)
+        # discovery: a message-processing instance discovers once; leaving a
+        # block gives the instance (and its discovery) of before the block back
+        tok = sysm.tokens[-1]
+        if family(top["credentials"]) == "v3":
+            expected = 1 if tok in sysm.discovered else 2
+            sysm.discovered.add(tok)
+            facts["datagrams"] = len(sysm.datagrams)
+            if len(sysm.datagrams) != expected:
+                bad("engine-discovery-repeated-or-skipped", datagrams=len(sysm.datagrams), expected=expected)
+        elif len(sysm.datagrams) != 1:
+            bad("unexpected-number-of-datagrams", datagrams=len(sysm.datagrams))
     return out
+
+
+def family(creds_name):
+    return creds_name.split(":")[0]
 
 
 def judge_datagram(packet, top, bad, sysm):
